@@ -83,6 +83,9 @@ func parseDir(dir string, skip func(name string) bool) (*srcPkg, error) {
 						for i, nm := range s.Names {
 							if i < len(s.Values) {
 								sp.decls[nm.Name] = s.Values[i]
+								if d.Tok == token.CONST {
+									constRegistry[nm.Name] = append(constRegistry[nm.Name], s.Values[i])
+								}
 							}
 						}
 					case *ast.TypeSpec:
@@ -222,6 +225,18 @@ func (m *matcher) expr(a, b ast.Expr) bool {
 	// reviewed selector equivalences
 	if sa, sb := selString(a), selString(b); sa != "" && sb != "" && sa != sb {
 		if m.selEq[sa] == sb {
+			return true
+		}
+	}
+	// a named package-level constant and the literal of its value are the same
+	// expression (constants are compared by value)
+	if id, ok := a.(*ast.Ident); ok {
+		if lit, ok := b.(*ast.BasicLit); ok && constIdentIs(id.Name, lit) {
+			return true
+		}
+	}
+	if id, ok := b.(*ast.Ident); ok {
+		if lit, ok := a.(*ast.BasicLit); ok && constIdentIs(id.Name, lit) {
 			return true
 		}
 	}
@@ -587,4 +602,31 @@ func embedsInOrder(forkBody *ast.BlockStmt, refStmts []ast.Stmt) (bool, string) 
 		}
 	}
 	return true, ""
+}
+
+// constRegistry: initialisers of package-level constants of every parsed
+// package (fork and reference), by name.
+var constRegistry = map[string][]ast.Expr{}
+
+// constIdentIs: every registered constant of that name is initialised with a
+// literal equal to lit.
+func constIdentIs(name string, lit *ast.BasicLit) bool {
+	inits := constRegistry[name]
+	if len(inits) == 0 {
+		return false
+	}
+	for _, e := range inits {
+		for {
+			if p, ok := e.(*ast.ParenExpr); ok {
+				e = p.X
+				continue
+			}
+			break
+		}
+		l, ok := e.(*ast.BasicLit)
+		if !ok || l.Kind != lit.Kind || normLit(l.Value) != normLit(lit.Value) {
+			return false
+		}
+	}
+	return true
 }
